@@ -263,7 +263,7 @@ pub fn h_c05_recombination_driver_3() {
 // state (stack, best-so-far memory) is consistent again. Components with Vec encodings are out
 // (class S, see module header).
 
-mod layer2 {
+pub mod layer2 {
     use super::*;
     use mahf::components::evaluation::BestIndividualUpdate;
     use mahf::components::replacement::{sa::ExponentialAnnealingAcceptance, sa::Temperature, KeepBetterAtIndex, Merge, MuPlusLambda};
